@@ -113,6 +113,8 @@ def req_dotdict(r):
         d.read_tag = {"elements": r["n"]}
     elif op == "rf":
         d.read_frag = {"elements": r["n"], "offset": r["off"]}
+        if r.get("elide_n"):      # in-process callers may leave the count out: "the rest of the tag"
+            del d.read_frag["elements"]
     elif op == "wt":
         d.write_tag = {"type": r["ty"], "elements": r["n"], "data": [pyval(v) for v in r["vals"]]}
     elif op == "wf":
@@ -222,6 +224,11 @@ class Device:
         cpppo = self.cpppo
         obj = self.router
         try:
+            if r.get("direct"):
+                # the in-process API: a request mapping handed straight to the object (no wire form in between)
+                data = req_dotdict(r)
+                obj.request(data)
+                return hexs(data.input)
             encoded = obj.produce(req_dotdict(r))
             data = cpppo.dotdict()
             source = cpppo.chainable(encoded)
